@@ -41,6 +41,12 @@ package composite
 //@   bind call Manager.SyncObject: updatedParent, soErr
 //@   bind call parentController.claimChildren: observed, ccErr
 //@   bind call parentController.syncRevisions: syncResult, srErr
+//@   bind loop 1: gk, group
+//@   bind loop 2: ck, obj
+//@   invariant loop 1 [C04]: forall g api.GroupVersionKind :: visited(1, g) ==> (forall k string :: has(desiredChildren[g], k) ==> matchesLabelsOf(selector, desiredChildren[g][k]))
+//@   invariant loop 2 [C04]: forall g api.GroupVersionKind :: visited(1, g) && g != gk ==> (forall k string :: has(desiredChildren[g], k) ==> matchesLabelsOf(selector, desiredChildren[g][k]))
+//@   invariant loop 2 [C04]: has(desiredChildren, gk) && group == desiredChildren[gk] && (forall k string :: visited(2, k) ==> matchesLabelsOf(selector, group[k]))
+//@   at ManageChildren(dc, us, p, obs, des, opts) [C04]: des == desiredChildren && (forall g api.GroupVersionKind :: has(des, g) ==> (forall k string :: has(des[g], k) ==> matchesLabelsOf(selector, des[g][k])))
 //@   at parentController.claimChildren(p0, p) [C10]: soErr == nil && p == updatedParent
 //@   at parentController.syncRevisions(p0, p, obs, rel) [C09,C10]: soErr == nil && ccErr == nil && obs == observed && p == updatedParent
 //@   at ManageChildren(dc, us, p, obs, des, opts) [C09,C13]: srErr == nil && syncResult != nil
@@ -65,6 +71,9 @@ package composite
 //@   ensures [C10] finalizing || pc.syncHook.IsEnabled() ==> count(Call) == 1
 //@   ensures [C10,C13] !finalizing && !pc.syncHook.IsEnabled() ==> resp == nil && err == nil
 //@   ensures [C13] err != nil ==> resp == nil
+//@   bind call Call: hookErr
+//@   ensures [C12] called(Call) && hookErr != nil ==> err != nil && isTMR(err) == isTMR(hookErr)
+//@   ensures [C12] called(Call) && hookErr == nil ==> err == nil
 //@   invariant loop 1 [C03]: forall j int :: 0 <= j && j <= rangeindex ==> response.Children[j] == nil || response.Children[j].GetNamespace() != "" || parent.GetNamespace() == ""
 //@   ensures [C03] err == nil && resp != nil ==> (forall j int :: 0 <= j && j < len(resp.Children) ==> resp.Children[j] == nil || resp.Children[j].GetNamespace() != "" || parent.GetNamespace() == "")
 
@@ -128,6 +137,10 @@ package composite
 //@ func parentController.resolveControllerRef(pc, childNamespace, controllerRef) (parent)
 //@   requires validPC(pc) && controllerRef != nil
 //@   safety C13
+//@   bind call GetObject: got, getErr
+//@   at GetObject(inf, ns, n) [C14]: inf == pc.parentInformer && n == controllerRef.Name && ns == ite(pc.parentResource.Namespaced, childNamespace, "")
+//@   ensures [C14] fst(common.ParseAPIVersion(controllerRef.APIVersion)) == pc.parentResource.Group && controllerRef.Kind == pc.parentResource.Kind ==> called(GetObject)
+//@   ensures [C14] called(GetObject) && getErr == nil && got.GetUID() == controllerRef.UID && interestedIn(pc, got) ==> parent == got
 //@   ensures [C14] parent != nil ==> controllerRef.Kind == pc.parentResource.Kind && parent.GetName() == controllerRef.Name && parent.GetUID() == controllerRef.UID && interestedIn(pc, parent) && cached(parent)
 //@   ensures [C14] parent != nil && pc.parentResource.Namespaced && childNamespace != "" ==> parent.GetNamespace() == childNamespace
 
@@ -167,3 +180,17 @@ package composite
 //@   bind loop 1: idx, parent
 //@   invariant loop 1 [C14]: forall j int :: 0 <= j && j < len(matchingParents) ==> matchingParents[j] != nil && cached(matchingParents[j])
 //@   ensures [C14] forall j int :: 0 <= j && j < len(parents) ==> parents[j] != nil && cached(parents[j])
+
+//@ func updateStrategyMap.GetMethod(m, apiGroup, kind) (r)
+//@   safety C13
+//@   let key = claimMapKey(apiGroup, kind)
+//@   ensures [C06] r == ite(m[key] == nil || m[key].Method == "", v1alpha1.ChildUpdateOnDelete, m[key].Method)
+
+//@ func makeUpdateStrategyMap(resources, cc) (m, err)
+//@   requires resources != nil && cc != nil
+//@   safety C13
+//@   let A = cc.Spec.ChildResources
+//@   invariant loop 1 [C06]: rangeindex < len(A)
+//@   invariant loop 1 [C06]: m != nil && (forall j int :: 0 <= j && j <= rangeindex && A[j].UpdateStrategy != nil && A[j].UpdateStrategy.Method != v1alpha1.ChildUpdateOnDelete ==> m[resources.Get(A[j].APIVersion, A[j].Resource).Kind + "." + fst(common.ParseAPIVersion(A[j].APIVersion))] != nil)
+//@   ensures [C06] err == nil ==> m != nil && (forall j int :: 0 <= j && j < len(A) && A[j].UpdateStrategy != nil && A[j].UpdateStrategy.Method != v1alpha1.ChildUpdateOnDelete ==> m[resources.Get(A[j].APIVersion, A[j].Resource).Kind + "." + fst(common.ParseAPIVersion(A[j].APIVersion))] != nil)
+//@   // the value stored is the rule's own strategy unless a later rule has the same key (last rule wins): not claimed, the nested quantifier makes the obligation slow
